@@ -26,6 +26,15 @@
  *   E <exit> | <state>                                                ExitStatusToState
  *   W <hex> | <ran> <argv list>                                       real `sh -c "<plugin> <text>"` through Process
  *
+ *   Z <signal> <op line>                                              the child executing <op line> died (0 = exited abnormally,
+ *                                                                     14 = hung for 200 s); the run continues with the next line
+ *   X lines take an optional 5th field after <sleep_ds>: what the plugin does on SIGTERM — t0..t3 = trap it and exit 0..3,
+ *   ti = ignore it (must be SIGKILLed), - = default action.
+ *
+ * The parent process only generates / reads operation lines (it never calls the code under test); batches of them, cut at case
+ * boundaries, are executed in forked children, so that a crash, abort or hang of the real code is attributed to the operation
+ * that caused it and the run goes on (the fresh child silently re-applies the C/V/T lines of the interrupted case).
+ *
  * Modes:  gen --seed S --tier quick|thorough      ops FILE        (recording plugin: --plugin PATH or $C09_PLUGIN)
  */
 #include "common.hpp"
@@ -42,6 +51,8 @@
 #include <fstream>
 #include <sys/stat.h>
 #include <signal.h>
+#include <sys/mman.h>
+#include <sys/wait.h>
 
 using namespace icinga;
 using namespace vh;
@@ -364,9 +375,12 @@ static B GoneState(const B& pidFile)
 	return "0";
 }
 
+static B l_TermMode = "-";
+
 static Dictionary::Ptr PluginEnv(const B& dump, int exitCode, const B& out, int sleepDs)
 {
 	return new Dictionary({
+		{ "C09_TERM", String(l_TermMode) },
 		{ "C09_OUT", String(dump) },
 		{ "C09_EXIT", Convert::ToString(exitCode) },
 		{ "C09_PRINT", String(out.empty() ? B("") : Hex(out)) },
@@ -509,6 +523,8 @@ static B DoW(const B& text)
 
 /* ---------- one line ---------- */
 
+static bool l_Quiet = false;
+
 static bool Exec(const B& lineIn)
 {
 	B line = lineIn;
@@ -560,9 +576,11 @@ static bool Exec(const B& lineIn)
 	} else if (op == "X") {
 		size_t i = 2;
 		Value cmd; Dictionary::Ptr args;
-		if (w.size() < 8 || !ParseCmdArgs(w, i, cmd, args) || i + 4 != w.size()) return false;
+		if (w.size() < 8 || !ParseCmdArgs(w, i, cmd, args) || (i + 4 != w.size() && i + 5 != w.size())) return false;
 		B out;
 		if (!Unhex(w[i + 1], out)) return false;
+		l_TermMode = (i + 5 == w.size()) ? w[i + 4] : B("-");
+		struct TermReset { ~TermReset() { l_TermMode = "-"; } } termReset;
 		o << DoX(w[1] == "1", cmd, args, atoi(w[i].c_str()), out, atoi(w[i + 2].c_str()), atoi(w[i + 3].c_str()));
 	} else if (op == "H" && w.size() == 5) {
 		B str;
@@ -615,16 +633,75 @@ static bool Exec(const B& lineIn)
 	} else {
 		return false;
 	}
-	puts(o.str().c_str());
+	if (!l_Quiet)
+		puts(o.str().c_str());
 	return true;
 }
 
+/* ---------- batches executed in forked children ---------- */
+
+static std::vector<B> l_Batch;
+static size_t l_BatchMax = 8000;
+static void FlushBatch();
+
+/* generator / reader side: collect; cut batches at case boundaries only */
 static void Must(const B& line)
 {
-	if (!Exec(line)) {
-		fprintf(stderr, "c09: bad line: %s\n", line.c_str());
-		_exit(2);
+	if (line.size() > 1 && line[0] == 'C' && line[1] == ' ' && l_Batch.size() >= l_BatchMax)
+		FlushBatch();
+	l_Batch.push_back(line);
+}
+
+static bool IsSetupLine(const B& l) { return l.size() > 1 && l[1] == ' ' && (l[0] == 'C' || l[0] == 'V' || l[0] == 'T'); }
+
+static void FlushBatch()
+{
+	static volatile size_t *cur = nullptr;
+	if (!cur) {
+		cur = (volatile size_t *)mmap(nullptr, 4096, PROT_READ | PROT_WRITE, MAP_SHARED | MAP_ANONYMOUS, -1, 0);
+		if (cur == MAP_FAILED) { perror("mmap"); _exit(2); }
 	}
+	size_t start = 0;
+	while (start < l_Batch.size()) {
+		fflush(stdout);
+		*cur = start;
+		pid_t pid = fork();
+		if (pid < 0) { perror("fork"); _exit(2); }
+		if (pid == 0) {
+			/* the spawn helper must be forked before any thread exists (daemoncommand.cpp:538) */
+			Process::InitializeSpawnHelper();
+			InitIcinga();
+			Setup();
+			ResetCase();
+			/* after a death in the middle of a case: re-apply its C/V/T lines without output */
+			size_t cs = start;
+			while (cs > 0 && !(l_Batch[cs][0] == 'C' && l_Batch[cs][1] == ' ')) cs--;
+			l_Quiet = true;
+			for (size_t k = cs; k < start; k++)
+				if (IsSetupLine(l_Batch[k]) && !Exec(l_Batch[k])) _exit(2);
+			l_Quiet = false;
+			for (size_t i = start; i < l_Batch.size(); i++) {
+				*cur = i;
+				alarm(200);                      /* a hang of the real code ends the child with SIGALRM */
+				if (!Exec(l_Batch[i])) { fprintf(stderr, "c09: bad line: %s\n", l_Batch[i].substr(0, 300).c_str()); fflush(stdout); _exit(2); }
+				fflush(stdout);
+			}
+			alarm(0);
+			fflush(stdout);
+			_exit(0);
+		}
+		int status = 0;
+		while (waitpid(pid, &status, 0) < 0 && errno == EINTR) { }
+		if (WIFEXITED(status) && WEXITSTATUS(status) == 0) break;
+		if (WIFEXITED(status) && (WEXITSTATUS(status) == 2 || WEXITSTATUS(status) == 3)) _exit(WEXITSTATUS(status));   /* harness usage error */
+		size_t i = *cur;
+		int sig = WIFSIGNALED(status) ? WTERMSIG(status) : 0;
+		/* a partially written line of the dead child may precede this one: start on a fresh line */
+		printf("\nZ %d %s\n", sig, l_Batch[i].c_str());
+		start = i + 1;
+	}
+	fflush(stdout);
+	l_Batch.clear();
 }
 
 /* ---------- generator ---------- */
@@ -718,6 +795,10 @@ static void GenSetup(Rng& r, long n)
 				Must(B("V ") + lvl + " " + Hex(name) + " " + ValTok(RandVarValue(r)));
 	if (r.below(40) == 0)
 		Must(B("V h - ") + ValTok(RandVarValue(r)));   /* a variable named "" */
+	if (r.below(30) == 0) {
+		B nm = VARS[r.below(NEL(VARS))];               /* an array that contains a reference to itself */
+		Must(B("V ") + (r.coin() ? "h " : "s ") + Hex(nm) + " A:" + Hex(RandText(r, 2, false)) + "," + Hex("$" + nm + "$"));
+	}
 	for (const char *a : ATTRS) {
 		if (r.below(3) == 0) continue;
 		bool rec = strncmp(a, "address", 7) && strcmp(a, "display_name");
@@ -866,10 +947,19 @@ static void Gen(uint64_t seed, bool thorough)
 		Must("V h " + Hex("self") + " S:" + Hex("$self$"));
 		Must("V h " + Hex("ping") + " S:" + Hex("$pong$"));
 		Must("V h " + Hex("pong") + " A:" + Hex("$ping$"));
+		/* cycles in which every hop is an ARRAY: the limit must end them with the recursion error as well */
+		Must("V h " + Hex("loop") + " A:" + Hex("first") + "," + Hex("$loop$"));
+		Must("V h " + Hex("pa") + " A:" + Hex("$pb$"));
+		Must("V c " + Hex("pb") + " A:" + Hex("x") + "," + Hex("$pa$"));
 		for (int level = 0; level <= 3; level++)
 			Must("M 0 " + std::to_string(level) + " 0 " + Hex("$c0$"));
 		Must("M 0 0 0 " + Hex("a $self$ b"));
 		Must("M 0 0 0 " + Hex("$ping$"));
+		Must("M 0 0 0 " + Hex("$loop$"));
+		Must("M 0 " + std::to_string(depth % 4) + " 1 " + Hex("$pa$"));
+		Must("H 0 0 0 " + Hex("$host.vars.loop$"));
+		Must("G 0 a:" + HexList({ "@P" }) + " 1 " + Hex("-a") + ";1;~;S:" + Hex("$loop$") + ";0;0;1;0;~;E");
+		Must("G 0 s:" + Hex("@P $pb$") + " -");
 		Must("M 0 14 0 " + Hex("plain"));
 		Must("M 0 15 0 " + Hex("plain"));
 		Must("G 0 a:" + HexList({ "@P", "$c0$" }) + " 1 " + Hex("-a") + ";1;~;S:" + Hex("$c1$") + ";0;0;1;0;~;E");
@@ -938,29 +1028,33 @@ static void Gen(uint64_t seed, bool thorough)
 		Must("X 0 s:" + Hex("@P -m \"$address$\"") + " - 0 " + Hex("OK") + " 0 0");
 		Must("X 0 s:" + Hex("@P -m $address$ \"pre $v0$\"") + " - 0 " + Hex("OK") + " 0 0");
 	}
-	/* timeout kill */
-	int tos = thorough ? 3 : 1;
-	for (int c = 0; c < tos; c++) {
+	/* timeout kill: default action, plugins that trap SIGTERM and exit 0/1/2/3 by themselves, a plugin that ignores SIGTERM */
+	{
 		Must("C " + std::to_string(++n));
 		Must("X 0 a:" + HexList({ "@P", "x" }) + " - 0 " + Hex("partial") + " 1 300");
 		if (thorough || seed % 2)
 			Must("X 1 s:" + Hex("@P y") + " - 0 " + Hex("partial") + " 1 300");
+		static const char *TERM[] = { "t0", "t1", "t2", "t3", "ti" };
+		for (size_t k = 0; k < NEL(TERM); k++) {
+			if (!thorough && k == 3) continue;
+			Must("C " + std::to_string(++n));
+			Must("X " + std::to_string(k % 2) + " a:" + HexList({ "@P", "trap" }) + " - " + std::to_string((int)(k % 3)) + " " + Hex("slow | a=1") + " 1 300 " + TERM[k]);
+			if (thorough)
+				Must("X 0 s:" + Hex("@P trap") + " - 2 " + Hex("slow") + " 1 300 " + TERM[k]);
+		}
 	}
 }
 
 int main(int argc, char **argv)
 {
 	if (argc < 2) { fprintf(stderr, "usage: h_c09 gen|ops ... --plugin PATH\n"); return 2; }
-	/* the spawn helper must be forked before any thread exists (daemoncommand.cpp:538) */
-	Process::InitializeSpawnHelper();
-	InitIcinga();
+	static char outbuf[1 << 20];
+	setvbuf(stdout, outbuf, _IOFBF, sizeof outbuf);
 	l_Plugin = argOr(argc, argv, "--plugin", getenv("C09_PLUGIN") ? getenv("C09_PLUGIN") : "");
 	if (l_Plugin.empty() || access(l_Plugin.c_str(), X_OK) != 0) { fprintf(stderr, "c09: --plugin PATH (executable) required\n"); return 2; }
 	char tmpl[] = "/tmp/c09.XXXXXX";
 	const char *t = getenv("C09_TMP");
 	if (t) l_Tmp = t; else { if (!mkdtemp(tmpl)) { perror("mkdtemp"); return 2; } l_Tmp = tmpl; }
-	Setup();
-	ResetCase();
 	std::string mode = argv[1];
 	if (mode == "gen") {
 		uint64_t seed = strtoull(argOr(argc, argv, "--seed", "1"), nullptr, 10);
@@ -969,15 +1063,26 @@ int main(int argc, char **argv)
 		if (argc < 3) return 2;
 		std::ifstream f(argv[2]);
 		if (!f) { perror("open"); return 2; }
+		l_BatchMax = 100000000;
 		B line;
 		while (std::getline(f, line)) {
+			/* a Z line replays the operation it names */
+			if (line.size() > 2 && line[0] == 'Z' && line[1] == ' ') {
+				size_t sp = line.find(' ', 2);
+				if (sp == B::npos) continue;
+				line = line.substr(sp + 1);
+			}
+			size_t bar = line.find(" | ");
+			if (bar != B::npos) line = line.substr(0, bar);
+			while (!line.empty() && (line.back() == ' ' || line.back() == '\r')) line.pop_back();
 			if (line.empty() || line[0] == '#') continue;
 			Must(line);
 		}
 	} else {
 		return 2;
 	}
+	FlushBatch();
 	fflush(stdout);
-	if (!t) rmdir(l_Tmp.c_str());
+	if (!t) { std::string rm = "rm -rf '" + l_Tmp + "'"; if (system(rm.c_str())) { } }
 	_exit(0);
 }
